@@ -26,3 +26,7 @@ def setup_import_paths():
 
 def repo_path(rel):
     return os.path.join(REPO, rel)
+
+
+def os_environ_flag(name):
+    return os.environ.get(name, '') not in ('', '0')
